@@ -1,14 +1,14 @@
 SPECIFICATION Spec
 CONSTANTS
   DerefLimit = 128
-  Dev_NextCycle = TRUE
-  Dev_FirstCycle = TRUE
-  Dev_KidsCycle = TRUE
-  Dev_DestIndex = TRUE
-  Dev_NdUnwrapD = TRUE
-  Dev_NdKeyStr = TRUE
-  Dev_NdValIndex = TRUE
-  Dev_CsIndex = TRUE
-  Dev_SizeHint = TRUE
+  Dev_NextCycle = FALSE
+  Dev_FirstCycle = FALSE
+  Dev_KidsCycle = FALSE
+  Dev_DestIndex = FALSE
+  Dev_NdUnwrapD = FALSE
+  Dev_NdKeyStr = FALSE
+  Dev_NdValIndex = FALSE
+  Dev_CsIndex = FALSE
+  Dev_SizeHint = FALSE
 POSTCONDITION Consumed
 CHECK_DEADLOCK FALSE
